@@ -109,7 +109,8 @@ def _dec2base(value, places=None, base=16):
         places = _to_int(places)
         if places in ERROR_CODES:
             return places
-        if places < len(value):
+        if places < len(value) or places > 10:
+            # too few characters, or more than excel ever shows
             return NUM_ERROR
     return value.zfill(places)
 
